@@ -37,12 +37,13 @@ UsesS97(t) == TGe(t, 1) /\ TLe(t, 2)
 UsesB67(t) == ~TLe(t, 2) /\ TLe(t, 5)
 UsesB97(t) == ~TLe(t, 2) /\ TLe(t, 5)
 Possible(c) ==
-    /\ (c.p0 = "lt" => c.p8 = "lt" /\ c.s67 = "lt" /\ c.s97 = "lt" /\ c.b67 = "lt" /\ c.b97 = "lt")
-    /\ (c.p0 = "eq" => c.p8 = "lt" /\ c.s67 = "lt" /\ c.s97 = "lt" /\ c.b67 = "lt" /\ c.b97 = "lt")
-    /\ (c.p8 # "lt" /\ TLt(c.t, 5) => c.s67 = "gt" /\ c.s97 = "gt" /\ c.b67 = "gt" /\ c.b97 = "gt")
-    /\ (c.p8 # "lt" => c.s67 = "gt" /\ c.s97 = "gt")
     /\ (~UsesS67(c.t) => c.s67 = "gt") /\ (~UsesS97(c.t) => c.s97 = "gt")
     /\ (~UsesB67(c.t) => c.b67 = "gt") /\ (~UsesB97(c.t) => c.b97 = "gt")
+    /\ (c.p0 # "gt" => /\ c.p8 = "lt"
+                       /\ (UsesS67(c.t) => c.s67 = "lt") /\ (UsesS97(c.t) => c.s97 = "lt")
+                       /\ (UsesB67(c.t) => c.b67 = "lt") /\ (UsesB97(c.t) => c.b97 = "lt"))
+    /\ (c.p8 # "lt" => c.s67 = "gt" /\ c.s97 = "gt")
+    /\ (c.p8 # "lt" /\ TLe(c.t, 4) => c.b67 = "gt" /\ c.b97 = "gt")      \* (the boundary curves pass 100 MPa at about 590 C)
     /\ (UsesB67(c.t) /\ UsesS67(c.t) /\ c.s67 # "lt" => c.b67 = "gt")           \* b23 < psat between 350 and critical
     /\ (UsesB67(c.t) /\ UsesS67(c.t) /\ c.b67 # "gt" => c.s67 = "lt")
 InBox(c) == TGe(c.t, 1) /\ TLe(c.t, 6) /\ c.p0 # "lt" /\ c.p8 # "gt"
@@ -84,17 +85,19 @@ I_ClassifiersAgree == InBox(cell) /\ OffCurves(cell) /\ (TLe(cell.t, 2) \/ ~TLe(
 (* between 350 C and the critical point IFC-67 splits IAPWS region 3 into 3 and 4 *)
 I_Region4InsideRegion3 == InBox(cell) /\ OffCurves(cell) /\ Region67(cell) = 4 => Region97(cell) = 3
 (* liquid routine: in range exactly on region 1 below 350 C (closed at the saturation line, which region() counts as liquid) *)
-I_LiquidRange == CowatOK(cell) <=> (InBox(cell) /\ TLe(cell.t, 2) /\ Region67(cell) = 1) \/ (TGe(cell.t, 1) /\ TLe(cell.t, 2) /\ cell.p0 = "lt" /\ FALSE)
+I_LiquidRange == /\ (CowatOK(cell) /\ cell.p0 = "gt" => InBox(cell) /\ Region67(cell) = 1)
+                 /\ (InBox(cell) /\ TLe(cell.t, 2) /\ Region67(cell) = 1 => CowatOK(cell))
 (* steam routine: in range exactly on the closure of region 2 (its upper boundary included), any pressure down to 0 *)
 I_SteamRange == SupstOK(cell) /\ cell.p8 # "gt" =>
                     \/ Region67(cell) = 2
                     \/ (TLe(cell.t, 4) /\ cell.s67 = "eq")                      \* on the saturation line
                     \/ (~TLe(cell.t, 4) /\ TLe(cell.t, 5) /\ cell.b67 = "eq")   \* on the region boundary
+                    \/ (~TLe(cell.t, 2) /\ TLe(cell.t, 4) /\ Region67(cell) = 3)   \* found by TLC: between 350 C and the critical point the
+                                                                                 \* steam routine's stated range runs up to saturation, through region 3
 I_SteamRangeComplete == InBox(cell) /\ Region67(cell) = 2 => SupstOK(cell)
 (* the two ranges meet only on the saturation line; together with regions 3 and 4 they cover the box *)
 I_RangesDisjoint == CowatOK(cell) /\ SupstOK(cell) => cell.s67 = "eq"
 I_Cover == InBox(cell) => CowatOK(cell) \/ SupstOK(cell) \/ Region67(cell) \in {3, 4} \/ (Region67(cell) = 1 /\ ~TLe(cell.t, 2))
-I_SatRange == \A t \in TPosSet : SatOK(t) <=> (\E c \in {x \in Cells : Possible(x) /\ x.t = t /\ InBox(x)} : TRUE) /\ TLe(t, 4)
 
 (* ---- separated steam fraction along increasing enthalpy: in [0, 1] (millionths) and never decreasing *)
 SweepOK(s) == /\ \A i \in 1..Len(s) : 0 <= s[i] /\ s[i] <= 1000000
